@@ -31,7 +31,7 @@ ASSUMPTIONS = [
 REQUIRED_CLASSES = ["nontrivial", "fallback_global", "outside_one_axis", "outside_both_axes", "reversed_end_returned",
                     "id0_returned", "bins=1", "bins=2", "bins>=3", "none_returned", "within_one_cell",
                     "query_at_end", "reverse_on", "reverse_off", "neighbourhood_not_global", "after_removal",
-                    "lattice", "continuous", "id0_in_neighbourhood"]
+                    "lattice", "continuous", "id0_in_neighbourhood", "other_index_alive"]
 QUICK_SHARDS = 4
 
 spatial_grid = sut.load("spatial_grid")
@@ -92,6 +92,15 @@ def body(ctx, case):
     count = len(paths)
     what = "Index(%r, %r, %r)" % (case["paths"], bins, reverse)
     index = call_sut(spatial_grid.Index, paths, bins, reverse)
+    if case.get("decoy"):
+        # another index (other size, other paths) is built and used while this one is alive; it must not matter
+        base.add("other_index_alive")
+        d_bins, d_reverse, d_shift = case["decoy"]
+        d_paths = [[[a[0] + d_shift, a[1] - d_shift], [b[0] - d_shift, b[1] + d_shift]] for a, b in case["paths"]]
+        d_paths.append([[d_paths[0][0][0] + abs(d_shift) + 1, d_paths[0][0][1]], [d_paths[0][1][0], d_paths[0][1][1] + 1]])
+        decoy = call_sut(spatial_grid.Index, d_paths, d_bins, d_reverse)
+        call_sut(decoy.nearest, list(d_paths[0][0]))
+        call_sut(decoy.remove_path, 0)
     indexed = [p[0] for p in paths] + ([p[1] for p in paths] if reverse else [])
     ref = RefGrid(index, indexed, bins)
     ctx.count("grid_from_" + ref.source)
@@ -331,7 +340,11 @@ def histories(draw):
         ops.append(["q", q])
     if drain:
         ops.append(["q", list(indexed[0])])
-    return {"paths": paths, "bins": bins, "reverse": reverse, "ops": ops, "tags": [tag, kind]}
+    case = {"paths": paths, "bins": bins, "reverse": reverse, "ops": ops, "tags": [tag, kind]}
+    if draw(st.integers(0, 3)) == 0:
+        case["decoy"] = [draw(st.sampled_from([b for b in (1, 2, 3, 4, 5, 7, 12) if b != bins])), draw(st.booleans()),
+                         draw(st.sampled_from([1, 3, scale]))]
+    return case
 
 
 def run(ctx):
